@@ -91,6 +91,9 @@ class SimScorer:
             v = self.rng.random()
         elif m == "coarse":
             v = float(self.rng.choice([0, 1, 2]))
+        elif m == "coarse_neg":
+            # the best score is exactly 0.0 (or -0.0), everything else below it
+            v = self.rng.choice([0.0, -0.0, -1.0, -2.5, 0.0])
         elif m == "script":
             v = self.script[self.n - 1] if self.n - 1 < len(self.script) else 0.0
         else:
@@ -526,7 +529,7 @@ def _schedulers(rng, n_random):
     s = [{"mode": "constant"}, {"mode": "shipped"}, {"mode": "neg_shipped"},
          {"mode": "counter_up"}, {"mode": "counter_down"}]
     for _ in range(n_random):
-        s.append({"mode": rng.choice(["uniform", "uniform", "coarse"]),
+        s.append({"mode": rng.choice(["uniform", "uniform", "coarse", "coarse_neg"]),
                   "seed": rng.randrange(1 << 30)})
     return s
 
@@ -616,7 +619,11 @@ def _texts(rng, n, prop="C15"):
         toks = t.split(" ")
         if rng.random() < 0.18 and toks:
             # a label somewhere (start, between two expression tokens, end)
-            toks.insert(rng.randint(0, len(toks)), rng.choice(["#work", "#fun", "#a-b", "#x1"]))
+            labs = ["#work", "#fun", "#a-b", "#x1"]
+            if prop == "C14":
+                # labels touching characters that pre-processing rewrites
+                labs += ["#work\u2013late", "#follow--up", "#(team)", "#a,b", "#x\u2014y"]
+            toks.insert(rng.randint(0, len(toks)), rng.choice(labs))
             t = " ".join(toks)
         if prop == "C14" and rng.random() < 0.2 and len(toks) > 1:
             # separators that pre-processing rewrites
